@@ -159,6 +159,9 @@ func discharge(o *Obligation, dir string, idx int, opts solveOpts) {
 	if try(opts.timeoutS) {
 		return
 	}
+	if o.Vacuity {
+		return // a cover that is not confirmed within the first budget is reported as unconfirmed, not retried
+	}
 	if opts.retryS > 0 && o.Result != "error" {
 		try(opts.retryS)
 	}
